@@ -344,7 +344,9 @@ pub fn run_perm(line: &str) -> Result<String, String> {
 	};
 	let a: Vec<String> = same.iter().map(&mut one).collect();
 	let b: Vec<String> = bad.iter().map(&mut one).collect();
-	Ok(format!("{} | {}", a.join(" ; "), b.join(" ; ")))
+	// the same presentations once more, on the configuration the rejected ones went through
+	let a2: Vec<String> = same.iter().map(&mut one).collect();
+	Ok(format!("{} | {} | {}", a.join(" ; "), b.join(" ; "), a2.join(" ; ")))
 }
 
 pub fn generate_perm(seed: u64, n: usize, emit: &mut dyn FnMut(String)) {
